@@ -1,4 +1,4 @@
-import RallyProofs.Mechanic
+import RallyProofs.MechanicNeutral
 
 /-!
 # C12 — cluster engine start/stop is all-or-nothing across hosts and reports failures
@@ -209,6 +209,29 @@ theorem external_untouched {cfg : Config} (hx : cfg.external = true) {s : State}
     have := I.a5 _ hm
     cases a <;> cases b <;> simp [idleOut] at this ⊢
 
+/-! ## ambient switches are neutral
+
+The handlers read settings that must not influence the protocol.  Two of them are parameters of the
+model — `preserve.install` (only an argument of the clean-up calls) and whether the race is found in
+the race store (only decides the per-node store calls): the theorem below says that the protocol
+(every message sent, received or dead-lettered, every actor created or exited, registrations,
+wake-ups — everything except the calls on the Mechanic's collaborators) and the state do not depend
+on them.  The others (logger levels, console verbosity, source vs. distribution build) do not exist in
+the model at all: the model *is* the statement that the protocol does not depend on them, and the
+correspondence streams run a share of all histories of the real actors under varied such settings
+against this one model. -/
+
+/-- the protocol and the state do not depend on the preserve-install and race-store switches -/
+theorem protocol_independent_of_cleanup_switches {cfg : Config} {preserve raceFound : Bool} {s : State}
+    {tr : List Out} (hr : Reach (cfg.withSwitches preserve raceFound) s tr) :
+    ∃ tr', Reach cfg s tr' ∧ tr.filter isProto = tr'.filter isProto :=
+  reach_switch hr
+
+/-- … history by history: the same events are enabled and give the same state and protocol outputs -/
+theorem protocol_independent_of_cleanup_switches_run (cfg : Config) (preserve raceFound : Bool) (es : List Event) :
+    SameProto (run (cfg.withSwitches preserve raceFound) State.init es) (run cfg State.init es) :=
+  run_switch cfg preserve raceFound State.init es
+
 /-! ## the hypotheses are satisfiable: concrete non-trivial histories -/
 
 /-- two host groups (a local one with two nodes, a remote one), full start and stop -/
@@ -265,5 +288,9 @@ example : ∃ s tr, Reach { exCfg with external := true } s tr ∧ engineStarted
     (p := fun _ tr => decide (engineStarted ∈ tr) && decide (engineStopped ∈ tr)) (by decide)
   simp only [Bool.and_eq_true, decide_eq_true_eq] at hp
   exact ⟨s, tr, hr, hp.1, hp.2⟩
+
+/-- the switches are not vacuous: they do change the calls (no store, clean-up with preserve) -/
+example : (run (exCfg.withSwitches true false) State.init exHistory).map (·.2) ≠
+    (run exCfg State.init exHistory).map (·.2) := by decide
 
 end C12
